@@ -48,6 +48,7 @@ type Clause struct {
 	E     Expr
 	Src   string
 	Where string
+	Any   string // modifies target "any pkg.Type.field": that field of every object of the type
 }
 
 type LoopSpec struct {
@@ -80,6 +81,15 @@ type Contract struct {
 	Alloc     *Clause  // upper bound (in elements) on every allocation the function makes whose size is not constant
 	Inlines   []string // (lemma functions) callees whose bodies are executed instead of their contracts
 	UseInst   []Clause // explicit lemma instances: lemma(args...) over the function's parameters
+	MapInvs   []MapInv
+	RevealIn  map[string][]string // obligation-name suffix -> opaque spec functions revealed for that obligation only
+}
+
+// MapInv: an invariant over every value stored in maps of one type ($v is the
+// value). Assumed at lookups / range, an obligation at every map assignment.
+type MapInv struct {
+	Type string // as printed with package names, e.g. map[chainhash.Hash][]*bloom.txWithIndex
+	C    Clause
 }
 
 // AssertAt: a proof-decomposition assertion checked (and then assumed) right
@@ -350,6 +360,17 @@ func (lib *SpecLib) loadFile(path, prefix string) error {
 			} else {
 				return bad(fmt.Errorf("'uses' outside lemma/func"))
 			}
+		case "revealin":
+			// revealin <obligation suffix>: f, g
+			i := strings.Index(rest, ":")
+			if i < 0 || cur == nil {
+				return bad(fmt.Errorf("revealin <obligation suffix>: <spec functions>"))
+			}
+			if cur.RevealIn == nil {
+				cur.RevealIn = map[string][]string{}
+			}
+			k := strings.TrimSpace(rest[:i])
+			cur.RevealIn[k] = append(cur.RevealIn[k], strings.FieldsFunc(rest[i+1:], func(r rune) bool { return r == ',' || r == ' ' })...)
 		case "opaque":
 			names := strings.FieldsFunc(rest, func(r rune) bool { return r == ',' || r == ' ' })
 			if curLemma != nil {
@@ -414,6 +435,16 @@ func (lib *SpecLib) loadFile(path, prefix string) error {
 					return bad(err)
 				}
 				cur.Asserts = append(cur.Asserts, AssertAt{Callee: loc, Ord: ord, C: c})
+			case "mapinv":
+				i := strings.Index(rest, ": ")
+				if i < 0 {
+					return bad(fmt.Errorf("mapinv <map type>: <expr over $v>"))
+				}
+				c, err := clause(strings.TrimSpace(rest[i+2:]))
+				if err != nil {
+					return bad(err)
+				}
+				cur.MapInvs = append(cur.MapInvs, MapInv{Type: strings.TrimSpace(rest[:i]), C: c})
 			case "alloc":
 				c, err := clause(rest)
 				if err != nil {
@@ -520,6 +551,10 @@ func parseModifies(rest, where string) ([]Clause, error) {
 	for _, p := range parts {
 		p = strings.TrimSpace(p)
 		src := p
+		if strings.HasPrefix(p, "any ") {
+			out = append(out, Clause{Src: src, Where: where, Any: strings.TrimSpace(p[4:])})
+			continue
+		}
 		p = strings.ReplaceAll(p, "[*]", ".$all")
 		if strings.HasPrefix(p, "*") {
 			p = strings.TrimPrefix(p, "*") + ".$obj"
